@@ -162,6 +162,15 @@ def run_check(pid, tier, seed, replay=None, jobs=0):
             print('axiom audit failed: %r' % bad)
             return 2
 
+    # thorough: re-check the compiled property module with the independent checker
+    leanchecker = None
+    if tier == 'thorough' and thms and not proof_broken:
+        rc_lc, out_lc = C.sh(['lake', 'env', 'leanchecker', 'LicenseExpr.Props.' + pid], cwd=C.LEAN, timeout=3000)
+        leanchecker = 'ok' if rc_lc == 0 else 'FAILED: ' + out_lc[-500:]
+        if rc_lc != 0:
+            print('leanchecker failed:\n' + out_lc[-2000:])
+            return 2
+
     # replay mode
     if replay:
         import impl
@@ -235,6 +244,7 @@ def run_check(pid, tier, seed, replay=None, jobs=0):
         'known_findings_reproduced': sorted(known_hits),
         'generated_files': {'changed_this_run': changed, 'status': translate.STATUS},
         'notes': total['notes'][:10],
+        'leanchecker': leanchecker,
     }
     if level == 'proof':
         cov.update({
@@ -285,5 +295,6 @@ class BaseProp:
             r['samples'].append(jsonable({'case': v.case, 'impl': v.impl}))
 
     def budget(self, tier, quick, thorough, nworkers, scale):
-        n = quick if tier != 'thorough' else thorough
+        # the per-property numbers are base budgets: quick runs 4x, thorough 10x of them
+        n = 4 * quick if tier != 'thorough' else 10 * thorough
         return max(1, int(n * scale / nworkers))
